@@ -147,6 +147,23 @@ fn prefix_local_universe() -> (Vec<V>, usize) {
     build_universe(&[0], &[vec![1, 0]], &[None], &[None], &[None], &locals)
 }
 
+/// Local parts that look like a label with a number glued to it (platform and distribution tags: cp39 / cp310, el9 / el10, ubuntu9, rc1, post2):
+/// letter stems of 1..6 letters x digit tails of different widths, with leading zeros, followed by a letter - alphabetic parts order as text.
+fn stem_number_local_universe() -> (Vec<V>, usize) {
+    use std::sync::OnceLock;
+    static NAMES: OnceLock<Vec<&'static str>> = OnceLock::new();
+    let names = NAMES.get_or_init(|| {
+        let mut v: Vec<&'static str> = vec![];
+        for stem in ["a", "aa", "cp", "el", "rc", "post", "ubuntu", "v"] { for tail in ["", "1", "9", "10", "09", "010", "1a", "9z", "39", "310", "100", "99", "4294967296"] {
+            for shape in 0..3 { let s = match shape { 0 => format!("{stem}{tail}"), 1 => format!("{stem}{tail}.1"), _ => format!("1.{stem}{tail}") };
+                let s: &'static str = Box::leak(s.into_boxed_str()); if !v.contains(&s) { v.push(s); } }
+        }}
+        v
+    });
+    let locals: Vec<Option<&'static str>> = std::iter::once(None).chain(names.iter().map(|s| Some(*s))).collect();
+    build_universe(&[0], &[vec![1, 0]], &[None], &[None], &[None], &locals)
+}
+
 fn universe(quick: bool) -> (Vec<V>, usize) {
     let epochs = [0u32, 1];
     let releases: Vec<Vec<u32>> = if quick { vec![vec![1], vec![1, 0, 1], vec![1, 1], vec![2]] } else { vec![vec![1], vec![1, 0, 1], vec![1, 1], vec![2], vec![1, 0, 0, 1], vec![0], vec![10]] };
@@ -311,6 +328,11 @@ fn main() {
     let s_pairs = s_pairs.merge(check_pairs(&ctx, &ur));
     let (up, np_versions) = prefix_local_universe();
     let s_pairs = s_pairs.merge(check_pairs(&ctx, &up));
+    let (us, ns_versions) = stem_number_local_universe();
+    let s_pairs = s_pairs.merge(check_pairs(&ctx, &us));
+    // (all triples of the plain stem+number parts: a cycle needs three of them)
+    let us_plain: Vec<&V> = us.iter().filter(|v| !v.text.contains("+1.") && !v.text.ends_with(".1")).collect();
+    let s_pairs = s_pairs.merge(check_triples(&ctx, &us_plain));
     // dense numeric sweeps: every value 0..=K in one field at a time, all ordered pairs per field
     let k = if ctx.quick() { 1000usize } else { 4000 };
     let mut s_pairs = s_pairs;
@@ -414,6 +436,7 @@ fn main() {
     cov.evaluations = all.get("pairs") + all.get("triples") + all.get("max_tag_sets");
     cov.traces_validated = cov.evaluations;
     cov.distinct_nontrivial = s_pairs.get("want_unequal") + s_pairs.get("same_version_spelling_pairs");
+    cov.set("stem_number_local_universe", json!(format!("{ns_versions} versions whose local part is a letter stem (a, aa, cp, el, rc, post, ubuntu, v) with a digit tail of varying width / leading zeros / a trailing letter, alone and beside a numeric part: all ordered pairs, all triples of the plain parts")));
     cov.rule = format!("{n_versions} abstract versions (epoch x release x pre x post x dev x local field universe), each written in 5 spellings (normal; upper case + long labels + -/_ separators; leading zeros + v; trailing .0.0 release + alternative labels + -N post; explicit epoch + .0 + implicit zero numbers) and parsed by the real parser = {} objects; ALL ordered pairs of objects vs the C11 key, spellings of one version must be ==; a second universe of {nb_versions} versions whose epoch / release / pre / post / dev numbers sit at 0 and 2^32-1 (all ordered pairs of its spellings as well); a third universe of {nl_versions} versions whose local parts are 31..300 characters long and share their prefix; a fourth universe of {nr_versions} versions whose release has 1..20, 33 and 65 numbers (all zero behind the first, or with a non-zero last number); a fifth universe of {np_versions} versions whose local part is a commit-id-like or word-like identifier cut at every length 1..=40 and continued by one of two characters; dense sweeps of every number 0..=1000 (thorough 4000) in each of 12 positions (epoch, release numbers, pre / post / dev numbers, numeric and alphanumeric local parts), all ordered pairs per position; all triples of a {}-element sub-universe; find_max_version_tag on all ordered selections of <=3 of {} objects. non-trivial = pairs that differ under the key or are distinct spellings of one version", u.len(), sub.len(), sub2.len());
     cov.exhaustive = true;
     cov.samples = vec![json!({"a": u[7].text, "b": u[u.len()/2+3].text}), json!({"a": u[u.len()-1].text, "b": u[u.len()-4].text}), json!({"a": u[11].text, "b": u[13].text})];
